@@ -228,4 +228,206 @@ Proof.
 Qed.
 
 Lemma nderiv_spec c r s w e : M r s (c :: w) e <-> M (nderiv c r s) false w e.
-Proof. unfold nderiv. rewrite norm_spec. apply deriv_spec. Qed.
+Proof. unfold nderiv. rewrite (norm_spec (deriv c r s) false w e). apply deriv_spec. Qed.
+
+(* ---------- a boolean matcher by derivatives (only used to state the generic theorem) ---------- *)
+Fixpoint matchb (r : re) (s : bool) (w : list N) (e : bool) : bool :=
+  match w with
+  | [] => null r s e
+  | c :: w' => matchb (deriv c r s) false w' e
+  end.
+
+Lemma matchb_spec w : forall r s e, matchb r s w e = true <-> M r s w e.
+Proof.
+  induction w as [|c w IH]; intros r s e; cbn [matchb].
+  - apply null_spec.
+  - rewrite IH. symmetry. apply deriv_spec.
+Qed.
+
+Lemma bool_eq_iff (a b : bool) : (a = true <-> b = true) -> a = b.
+Proof.
+  destruct a, b; intros [H1 H2]; try reflexivity; [symmetry; apply H1; reflexivity|apply H2; reflexivity].
+Qed.
+
+Lemma matchb_sem_eq a b : sem_eq a b -> forall s w e, matchb a s w e = matchb b s w e.
+Proof. intros H s w e. apply bool_eq_iff. rewrite !matchb_spec. apply H. Qed.
+
+(* ---------- characters of one class have equal derivatives ---------- *)
+Definition same_class (rs : list (N * N)) (c d : N) : Prop :=
+  forall r, In r rs -> in_range c r = in_range d r.
+
+Lemma in_cls_same rs c d : same_class rs c d -> in_cls c rs = in_cls d rs.
+Proof.
+  unfold in_cls. induction rs as [|r rs IH]; intro H; cbn; auto.
+  rewrite (H r (or_introl eq_refl)). f_equal. apply IH. intros r' Hr'. apply H. now right.
+Qed.
+
+Lemma deriv_same c d r : same_class (ranges_of r) c d -> forall s, deriv c r s = deriv d r s.
+Proof.
+  induction r as [| | | |rs|a IHa b IHb|a IHa b IHb|a IHa]; intros H s; cbn [deriv]; auto.
+  - cbn in H. now rewrite (in_cls_same rs c d H).
+  - cbn in H. rewrite IHa, IHb; auto; intros r Hr; apply H; apply in_or_app; auto.
+  - cbn in H. rewrite IHa, IHb; auto; intros r Hr; apply H; apply in_or_app; auto.
+  - cbn in H. rewrite IHa; auto.
+Qed.
+
+Lemma same_class_sub rs rs' c d : (forall r, In r rs' -> In r rs) -> same_class rs c d -> same_class rs' c d.
+Proof. intros Hsub H r Hr. apply H. auto. Qed.
+
+(* ---------- representatives ---------- *)
+(* the greatest element of l that is <= c *)
+Fixpoint best (c : N) (l : list N) : option N :=
+  match l with
+  | [] => None
+  | x :: l' =>
+    match best c l' with
+    | Some d => if (x <=? c) && (d <? x) then Some x else Some d
+    | None => if x <=? c then Some x else None
+    end
+  end.
+
+Lemma best_spec c l :
+  match best c l with
+  | Some d => In d l /\ d <= c /\ forall b, In b l -> b <= c -> b <= d
+  | None => forall b, In b l -> c < b
+  end.
+Proof.
+  induction l as [|x l IH]; cbn [best]; [intros b []|].
+  destruct (best c l) as [d|].
+  - destruct IH as (Hd & Hdc & Hmax).
+    destruct (x <=? c) eqn:Exc; cbn [andb].
+    + apply N.leb_le in Exc. destruct (d <? x) eqn:Edx.
+      * apply N.ltb_lt in Edx. split; [now left|split; [assumption|]].
+        intros b [<-|Hb] Hbc; [lia|]. specialize (Hmax b Hb Hbc). lia.
+      * apply N.ltb_ge in Edx. split; [now right|split; [assumption|]].
+        intros b [<-|Hb] Hbc; [assumption|auto].
+    + apply N.leb_gt in Exc. split; [now right|split; [assumption|]].
+      intros b [<-|Hb] Hbc; [lia|auto].
+  - destruct (x <=? c) eqn:Exc.
+    + apply N.leb_le in Exc. split; [now left|split; [assumption|]].
+      intros b [<-|Hb] Hbc; [lia|]. specialize (IH b Hb). lia.
+    + apply N.leb_gt in Exc. intros b [<-|Hb]; [assumption|auto].
+Qed.
+
+Lemma memN_in x l : memN x l = true <-> In x l.
+Proof.
+  unfold memN. rewrite existsb_exists. split.
+  - intros (y & Hy & E). apply N.eqb_eq in E. now subst.
+  - intro H. exists x. split; auto. apply N.eqb_refl.
+Qed.
+
+(* every admissible character has a representative of its class in [reps] *)
+Lemma rep_exists rs excluded c :
+  ~ In c excluded -> exists d, In d (reps rs excluded) /\ same_class rs c d.
+Proof.
+  intro Hc. pose proof (best_spec c (boundaries rs excluded)) as Hb.
+  destruct (best c (boundaries rs excluded)) as [d|].
+  2:{ exfalso. specialize (Hb 0). assert (c < 0) by (apply Hb; now left). lia. }
+  destruct Hb as (Hd & Hdc & Hmax). exists d. split.
+  - unfold reps. apply filter_In. split; auto.
+    destruct (memN d excluded) eqn:E; auto. apply memN_in in E.
+    (* d excluded: then d <> c, so d+1 <= c is a greater boundary *)
+    assert (d <> c) by (intro; subst; auto).
+    assert (In (d + 1) (boundaries rs excluded)).
+    { unfold boundaries. right. apply in_or_app. right. apply in_flat_map. exists d. split; auto. cbn. auto. }
+    assert (d + 1 <= d) by (apply Hmax; auto; lia). lia.
+  - intros [lo hi] Hr. unfold in_range; cbn [fst snd].
+    assert (Hlo : In lo (boundaries rs excluded)).
+    { unfold boundaries. right. apply in_or_app. left. apply in_flat_map. exists (lo, hi). split; auto. cbn. auto. }
+    assert (Hhi : In (hi + 1) (boundaries rs excluded)).
+    { unfold boundaries. right. apply in_or_app. left. apply in_flat_map. exists (lo, hi). split; auto. cbn. auto. }
+    assert (E1 : (lo <=? c) = (lo <=? d)).
+    { destruct (lo <=? c) eqn:A; symmetry.
+      - apply N.leb_le in A. apply N.leb_le. auto.
+      - apply N.leb_gt in A. apply N.leb_gt. lia. }
+    assert (E2 : (c <=? hi) = (d <=? hi)).
+    { destruct (c <=? hi) eqn:A; symmetry.
+      - apply N.leb_le in A. apply N.leb_le. lia.
+      - apply N.leb_gt in A. apply N.leb_gt.
+        assert (hi + 1 <= d) by (apply Hmax; auto; lia). lia. }
+    now rewrite E1, E2.
+Qed.
+
+(* ---------- the bisimulation argument ---------- *)
+Lemma state_eqb_eq x y : state_eqb x y = true -> x = y.
+Proof.
+  destruct x as [[s1 a1] b1], y as [[s2 a2] b2]. cbn.
+  intro H. apply andb_true_iff in H as [H Hb]. apply andb_true_iff in H as [Hs Ha].
+  apply Bool.eqb_prop in Hs. apply re_eqb_eq in Ha, Hb. congruence.
+Qed.
+
+Lemma mem_state_in x l : mem_state x l = true -> In x l.
+Proof.
+  unfold mem_state. rewrite existsb_exists. intros (y & Hy & E). apply state_eqb_eq in E. now subst.
+Qed.
+
+Lemma ranges_within_sub rs r : ranges_within rs r = true -> forall x, In x (ranges_of r) -> In x rs.
+Proof.
+  unfold ranges_within. rewrite forallb_forall. intros H x Hx. specialize (H x Hx).
+  apply existsb_exists in H as (y & Hy & E). unfold range_eqb in E.
+  apply andb_true_iff in E as [E1 E2]. apply N.eqb_eq in E1, E2.
+  destruct x, y; cbn in *; subst; auto.
+Qed.
+
+Section Sound.
+  Variable P : bool -> bool -> bool.
+  Variable rs : list (N * N).
+  Variable excluded : list N.
+  Variable V : list state.
+  Hypothesis Hclosed : closed P rs excluded V = true.
+
+  Lemma closed_steps w : forall s a b,
+    In (s, a, b) V -> (forall c, In c w -> ~ In c excluded) ->
+    forall e, P (matchb a s w e) (matchb b s w e) = true.
+  Proof.
+    induction w as [|c w IH]; intros s a b Hin Hw e.
+    - unfold closed in Hclosed. rewrite forallb_forall in Hclosed.
+      specialize (Hclosed _ Hin). cbn in Hclosed.
+      apply andb_true_iff in Hclosed as [H _]. apply andb_true_iff in H as [_ Hacc].
+      apply andb_true_iff in Hacc as [Ht Hf]. cbn [matchb]. destruct e; auto.
+    - pose proof Hclosed as Hc. unfold closed in Hc. rewrite forallb_forall in Hc.
+      specialize (Hc _ Hin). cbn beta iota in Hc.
+      apply andb_true_iff in Hc as [H Hsucc]. apply andb_true_iff in H as [H _].
+      apply andb_true_iff in H as [Hra Hrb].
+      destruct (rep_exists rs excluded c) as (d & Hd & Hsame); [apply Hw; now left|].
+      cbn [matchb].
+      rewrite (deriv_same c d a), (deriv_same c d b);
+        try (eapply same_class_sub; [|exact Hsame]; apply ranges_within_sub; assumption).
+      rewrite <- (matchb_sem_eq _ _ (norm_spec (deriv d a s))).
+      rewrite <- (matchb_sem_eq _ _ (norm_spec (deriv d b s))).
+      apply IH; [|intros c' Hc'; apply Hw; now right].
+      rewrite forallb_forall in Hsucc. apply mem_state_in. apply Hsucc.
+      unfold successors. apply in_map_iff. exists d. split; auto.
+  Qed.
+End Sound.
+
+Theorem check_sound_generic P excluded fuel r1 r2 V :
+  check P excluded fuel r1 r2 = Holds V ->
+  forall s w e, (forall c, In c w -> ~ In c excluded) ->
+  P (matchb r1 s w e) (matchb r2 s w e) = true.
+Proof.
+  unfold check. intro H.
+  destruct (explore _ _ _ _ _) as [V'| |]; try discriminate.
+  destruct (closed _ _ _ V' && _ && _) eqn:E; try discriminate.
+  apply andb_true_iff in E as [E Hf]. apply andb_true_iff in E as [Hcl Ht].
+  intros s w e Hw.
+  rewrite <- (matchb_sem_eq _ _ (norm_spec r1)), <- (matchb_sem_eq _ _ (norm_spec r2)).
+  eapply closed_steps; eauto. destruct s; apply mem_state_in; assumption.
+Qed.
+
+(* the two instances used as oracles *)
+Theorem equivalent_sound excluded fuel r1 r2 V :
+  equivalent excluded fuel r1 r2 = Holds V ->
+  forall s w e, (forall c, In c w -> ~ In c excluded) -> (M r1 s w e <-> M r2 s w e).
+Proof.
+  intros H s w e Hw. pose proof (check_sound_generic _ _ _ _ _ _ H s w e Hw) as E.
+  apply Bool.eqb_prop in E. rewrite <- !matchb_spec. now rewrite E.
+Qed.
+
+Theorem included_sound excluded fuel r1 r2 V :
+  included excluded fuel r1 r2 = Holds V ->
+  forall s w e, (forall c, In c w -> ~ In c excluded) -> M r1 s w e -> M r2 s w e.
+Proof.
+  intros H s w e Hw Hm. pose proof (check_sound_generic _ _ _ _ _ _ H s w e Hw) as E.
+  apply matchb_spec in Hm. rewrite Hm in E. cbn in E. now apply matchb_spec.
+Qed.
